@@ -10,6 +10,8 @@ import traceback
 
 
 def main():
+    import os
+    os.environ["VK_REPLAY"] = "1"   # harnesses may decide slow-path questions concretely during replay
     modname, func, args_src = sys.argv[1], sys.argv[2], sys.argv[3]
     trigger = None
     if "\x1eTRIGGER\x1e" in args_src:
